@@ -66,7 +66,7 @@ TFetch      == Is("Fetch") /\ (E.found <=> pending[E.id] # "none")
 TWForward   == Is("WForward") /\ w[E.id] = "forward" /\ Stutter
                /\ Step
 TBackend    == Is("BackendHandle")
-               /\ (\E i \in TIds : w[i] = "forward" /\ wreq[i] = E.tok /\ R!WForward(i))
+               /\ (\E i \in TIds : wreq[i] = E.tok /\ ((w[i] = "forward" /\ R!WForward(i)) \/ (w[i] = "retry" /\ R!Resend(i))))
                /\ Step
 TBackendReply == Is("BackendReply")
                /\ (\E i \in TIds : w[i] = "backend" /\ wreq[i] = E.tok /\ R!BackendReply(i))
@@ -75,6 +75,7 @@ TBackendFault == Is("BackendFault")
                /\ \E i \in TIds : /\ wreq[i] = E.tok
                                   /\ \/ (E.kind = "down" /\ R!BackendDown(i))
                                      \/ (E.kind # "down" /\ R!BackendBreaks(i))
+                                     \/ (E.kind = "be-close" /\ R!TransportRetry(i))   \* (idempotent request, nothing answered)
                /\ Step
 TPostLookup == Is("PostLookup") /\ (E.found <=> pending[E.id] # "none") /\ R!PostLookup(E.id)
                /\ Step
